@@ -44,6 +44,11 @@ public:
             }
             nops = w.range(0, 2);
         }
+        // curved selection with negative corrections (general, not provably lower, index sets), always under level limits
+        if (!scenario && (mk.gets("family") == "global" || mk.gets("family") == "sequence") && w.chance(0.25)) {
+            int dd = (int)mk.geti("dims"); mk["type"] = w.pick<std::string>({"curved", "ipcurved", "qpcurved"}); mk["aniso"] = genAnisoNegativeCurved(w, dd);
+            Json lim = Json::array(); for (int k = 0; k < dd; k++) lim.push(Json(w.range(2, 4))); mk["limits"] = lim; mk["depth"] = w.range(1, 4);
+        }
         p["make"] = mk;
         int d = (int)mk.geti("dims");
         if (!scenario && mk.geti("outs") > 0 && w.chance(0.8)) { Json o = Json::object(); o["op"] = "load"; o["variant"] = 0.0; ops.push(o); }
